@@ -42,6 +42,7 @@ pub struct RandomCfg {
     pub cb_act_p: f64,
     pub weak: bool,
     pub fin_ops: bool,
+    pub auto: bool,
 }
 
 pub struct RandomDir {
@@ -129,6 +130,18 @@ pub fn on_trace(o: u32) -> Option<usize> {
             _ => None,
         }),
         _ => None,
+    }
+}
+
+/// Does the new_cyclic closure store a clone of the provided Weak into the new value?
+pub fn closure_self_weak(o: u32) -> bool {
+    match mode() {
+        1 => match rec::peek() {
+            Some(e) if e["e"] == "cbx" && e["cb"] == "closure" && e["o"] == o => e["sw"] == true,
+            _ => false,
+        },
+        2 => with_random(|r| r.rng.gen_bool(0.6)).unwrap_or(false),
+        _ => true,
     }
 }
 
@@ -242,6 +255,23 @@ fn gen_cb_op<P: Pad>(r: &mut RandomDir, w: &mut World<P>, kind: CbKind, me: u32)
             _ => None,
         };
     }
+    if kind == CbKind::Closure {
+        let c = rng.gen_range(0..10);
+        return match c {
+            0..=2 => Some(json!({"e": "call", "op": "savew", "o": me})),
+            3..=4 => Some(json!({"e": "call", "op": "wprobe", "o": me})),
+            5 => Some(json!({"e": "call", "op": "collect"})),
+            6 => {
+                if (roots.len() as u32) < r.cfg.max_objs {
+                    Some(json!({"e": "call", "op": "new", "o": w.next_id}))
+                } else {
+                    None
+                }
+            }
+            7 => pick(rng, &roots).map(|o| json!({"e": "call", "op": "drop", "o": o})),
+            _ => None,
+        };
+    }
     let c = rng.gen_range(0..100);
     let slot = |rng: &mut StdRng, w: &World<P>| -> (String, u32) {
         if w.np > 0 && rng.gen_bool(0.25) {
@@ -311,7 +341,11 @@ pub fn gen_top_op<P: Pad>(r: &mut RandomDir, w: &mut World<P>) -> Option<Value> 
         0..=24 => {
             if (roots.len() as u32) < r.cfg.max_objs && (few || rng.gen_bool(0.4)) {
                 let o = w.next_id;
-                Some(json!({"e": "call", "op": "new", "o": o}))
+                if r.cfg.weak && rng.gen_bool(0.2) {
+                    Some(json!({"e": "call", "op": "newcyc", "o": o}))
+                } else {
+                    Some(json!({"e": "call", "op": "new", "o": o}))
+                }
             } else {
                 pick(rng, &roots).map(|o| json!({"e": "call", "op": "drop", "o": o}))
             }
@@ -342,6 +376,11 @@ pub fn gen_top_op<P: Pad>(r: &mut RandomDir, w: &mut World<P>) -> Option<Value> 
         146 => {
             let (k, i) = slot(rng, w);
             pick(rng, &roots).map(|a| json!({"e": "call", "op": "take", "a": a, "k": k, "i": i}))
+        }
+        147..=149 if cfg!(feature = "auto") && r.cfg.auto => {
+            let (pn, pd) = [(1, 10), (0, 1), (1, 1), (1, 2), (3, 4), (1, 16)][rng.gen_range(0..6)];
+            let bt = [0, 0, 1, 2, 5][rng.gen_range(0..5)];
+            Some(json!({"e": "call", "op": "setcfg", "auto": rng.gen_bool(0.85), "pn": pn, "pd": pd, "bt": bt}))
         }
         147..=161 => Some(json!({"e": "call", "op": "collect"})),
         162..=168 => pick(rng, &roots).map(|o| json!({"e": "call", "op": "unwrap", "o": o})),
